@@ -68,7 +68,7 @@ def _time(sx, args, kwargs, st, node):
 from pyvc.registry import Lemma
 
 
-def lemma(name, vars, hyp, concl, induct, base, props=()):
+def lemma(name, vars, hyp, concl, induct=None, base=None, props=()):
     l = Lemma(name, vars, hyp, concl, induct, base, props)
     REG.lemmas[name] = l
     return l
